@@ -295,6 +295,28 @@ def mod_interaction_probe(ctx):
                           {'mod_interaction': resid_pos})
 
 
+def block_resid_probe(ctx):
+    """a single-residue block whose definition is written with another residue number than 1 (an .itp cut out of a larger
+    molecule): every residue of the generated molecule is numbered by its residue id, and the chain link applies"""
+    text = '\n'.join(['[ moleculetype ]', 'AAA 1', '[ atoms ]', '1 P1 2 AAA A1 1 0.0 72', '2 P1 2 AAA A2 2 0.0 72', '[ bonds ]', 'A1 A2 1 0.3 1000',
+                      '[ link ]', 'resname "AAA"', '[ bonds ]', 'A2 +A1 1 0.35 1250']) + '\n'
+    for r0 in (1, 4):
+        g = {'nres': 3, 'shape': 'path', 'resnames': ['AAA'] * 3, 'edges': [(0, 1), (1, 2)], 'r0': r0, 'keys': [0, 1, 2],
+             'order': [0, 1, 2], 'edge_order': [0, 1], 'flip': [False, False]}
+        out = ffgen.run_pipeline(text, g)
+        ctx.case(('block_resid', r0), nontrivial=True)
+        ctx.feature('block_written_with_a_residue_number_other_than_1')
+        if 'error' in out:
+            ctx.violation('spec', f"a block written with residue number 2 fails for residues {r0}..{r0 + 2}: {out['error']}", {'block_resid': r0})
+            continue
+        got = [(a['resid'], a['name']) for a in out['links']['atoms']]
+        want = [(r0 + i, n) for i in range(3) for n in ('A1', 'A2')]
+        nb = len(out['links']['inters'].get('bonds', []))
+        if got != want or nb != 5:
+            ctx.violation('spec', f"a block written with residue number 2, sequence AAA:3 numbered from {r0}: atoms {got} (expected {want}), "
+                          f"{nb} bonds (3 of the blocks + 2 of the chain link expected)", {'block_resid': r0})
+
+
 def mod_cases(ctx):
     """a modification changes nothing but the atoms it names in its target residue, whatever the
     node keys, the residue numbering and the other modifications of the same run"""
@@ -437,6 +459,7 @@ def run(ctx):
         ctx.broken.append('correspondence:MapToMolecule vs model/Blocks.v')
     mod_cases(ctx)
     mod_interaction_probe(ctx)
+    block_resid_probe(ctx)
     multi_residue_cases(ctx)
     removal_cases(ctx)
     pattern_replace_cases(ctx, ctx.n(12, 120))
